@@ -1,19 +1,4 @@
-mod ast;
-mod builtins;
-mod core;
-mod pgen;
-mod grid;
-mod host;
-mod model;
-mod illtyped;
-mod lgen;
-mod mutate;
-mod progexec;
-mod reduce;
-mod props;
-mod runner;
-mod untyped;
-mod worker;
+use roto_verif::{cg, core, host, model, props, runner, worker};
 
 #[global_allocator]
 static ALLOC: host::CountingAlloc = host::CountingAlloc;
@@ -135,6 +120,32 @@ fn main() {
             let sig = j.get("sig").and_then(|x| x.as_str()).unwrap_or("").to_string();
             let mut w = p.worker(&[]);
             println!("{}", w.reduce(&case, &sig));
+        }
+        "cg-seeds" => {
+            // seed corpus of the coverage-guided stage: proptest-generated cases as blobs
+            let Some(p) = args.get(2).and_then(|id| props::find(id)) else { usage() };
+            let n = args.get(3).and_then(|s| s.parse().ok()).unwrap_or(200);
+            let Some(dir) = args.get(4) else { usage() };
+            let seed = std::env::var("VERIF_SEED").ok().and_then(|s| s.parse::<u64>().ok()).unwrap_or(0);
+            match cg::write_seeds(p, n, seed, std::path::Path::new(dir)) {
+                Ok(k) => println!("{k} seed files, max_len {}", cg::max_len(&p.shape(core::Tier::Thorough))),
+                Err(e) => {
+                    eprintln!("{e}");
+                    std::process::exit(2)
+                }
+            }
+        }
+        "cg-maxlen" => {
+            let Some(p) = args.get(2).and_then(|id| props::find(id)) else { usage() };
+            println!("{}", cg::max_len(&p.shape(core::Tier::Thorough)));
+        }
+        "cg-convert" => {
+            // libFuzzer artifact -> replay file
+            let Some(p) = args.get(2).and_then(|id| props::find(id)) else { usage() };
+            let data = std::fs::read(&args[3]).expect("read artifact");
+            let case = cg::blob_to_case(&p.shape(core::Tier::Thorough), &data);
+            let j = serde_json::json!({"property": p.id(), "origin": "libfuzzer (coverage-guided stage)", "case": core::case_to_json(&case)});
+            std::fs::write(&args[4], serde_json::to_string_pretty(&j).unwrap()).expect("write replay");
         }
         "replay" => {
             let Some(p) = args.get(2).and_then(|id| props::find(id)) else { usage() };
